@@ -96,7 +96,8 @@ class Gen(object):
             c = d["contained"]
             return [self.value(dict(c, name=d.get("name", "x")), i, owner) for _ in range(r.choice([1, 1, 2]))]
         if k in ("embedded", "embeddedobject"):
-            return self.instance("embedded:" + d["cls"], r.choice(["min", "max", "rand"]))
+            e = self.instance("embedded:" + d["cls"], r.choice(["min", "max", "rand"]))
+            return e or self.instance("embedded:" + d["cls"], "max")
         if k == "hashes":
             names = [n for n in d["spec_hash_names"] if n in HASHES]
             return {n: HASHES[n] for n in r.sample(names, r.randint(1, len(names)))}
